@@ -27,9 +27,14 @@ def cubeSetsMask (n : Nat) : List (List Nat) :=
 def groupingOf (args : List Nat) (set : List Nat) : Int :=
   args.foldl (fun acc i => acc * 2 + (if set.contains i then 0 else 1)) 0
 
+/-- position of key `i` among the branch's group columns -/
+def posOf : List Nat → Nat → Option Nat
+  | [], _ => none
+  | x :: xs, i => if x = i then some 0 else (posOf xs i).map (· + 1)
+
 /-- the branch's projection of the key columns: column `i` is the branch's own group column if `i ∈ set`, else NULL -/
 def padKey (n : Nat) (set : List Nat) (kv : Row) : Row :=
-  (List.range n).map fun i => match set.idxOf? i with | some j => kv.getD j .null | none => .null
+  (List.range n).map fun i => match posOf set i with | some j => kv.getD j .null | none => .null
 
 /-- the key expressions a branch groups by -/
 def subKeys (keys : List Expr) (set : List Nat) : List Expr := set.map fun i => keys.getD i (.lit .null)
